@@ -19,6 +19,7 @@ Servers (the reference device, byzantine peers) are plain objects with
 and talk back through SimConn.send()/close().
 """
 import asyncio
+import os
 from collections import Counter
 
 from .loop import TICK, quantize
@@ -368,6 +369,12 @@ class SimNet:
         if action == "refuse":
             self.stats["connect_refused"] += 1
             raise ConnectionRefusedError(111, f"Connect call failed ({host!r}, {port})")
+        if action.startswith("oserror:"):
+            # connect failures that are plain OSError (not ConnectionError): EHOSTUNREACH 113, ENETUNREACH 101,
+            # EMFILE 24, ENOBUFS 105, EADDRNOTAVAIL 99 ...
+            self.stats["connect_oserror"] += 1
+            code = int(action.split(":")[1])
+            raise OSError(code, os.strerror(code))
         protocol = factory()
         conn = SimConn(self, len(self.conns), host, port, server, protocol)
         self.conns.append(conn)
@@ -411,3 +418,9 @@ class SimNet:
             targets = [(ip, self.udp_hosts[ip])] if ip in self.udp_hosts else []
         for hip, host in targets:
             host.on_probe(self, endpoint, data, port, hip)
+        if ip != "255.255.255.255":
+            # hosts that talk to the prober's socket although the probe was not addressed to them (another
+            # prober's broadcast made them answer, a scanner, a misdirected reply)
+            for hip, host in list(self.udp_hosts.items()):
+                if hip != ip and getattr(host, "chatty", False):
+                    host.on_probe(self, endpoint, data, port, hip, overheard=True)
